@@ -125,6 +125,36 @@ def run(ctx):
     nr = 400 if quick else 6000
     ctx.run([wal, "random", str(nr), "14", str(ctx.seed), rtrace], timeout=1800)
     total += validate_both(ctx, rtrace, "random histories")
+    # logs far longer than the model's: a write burst between two snapshot rounds, a snapshot of several MB - compacted
+    # by ONE local snapshot, reopened, written to again (answers at the boundaries against the reference store's)
+    ltrace = ctx.path("wallong.ndjson")
+    sizes = ["3000:100", "120000:1", "40000:10000000"] if quick else ["3000:100", "120000:1", "40000:10000000", "400000:1", "150000:12000000", "105000:1"]
+    ctx.run([wal, "long", ltrace] + sizes, timeout=1800)
+    vl, nl = vlib.validate_trace(ctx, "WalStoreTrace", "WalStoreTrace_b.cfg", ltrace, is_reset)
+    levs = vlib.read_ndjson(ltrace)
+    if sum(1 for e in levs if e["ev"] == "long") != 6 * len(sizes):
+        raise vlib.NoVerdict("the long-log driver did not get through its stages")
+    seen_long = set()
+    for v in vl:
+        e = levs[v[0]]
+        cls = "entries>1e5" if e["n"] > 100000 else ("snapshot>9MB" if e["snapbytes"] > 9000000 else "short")
+        sig = "%s@%s:%s" % (v[1], cls, e["stage"])
+        if sig in seen_long:
+            continue
+        seen_long.add(sig)
+        ctx.finding(sig, "%s: a log of %d entries, snapshot of %d bytes, after %s: %s Badger answers %s, reference answers %s" %
+                    (sig, e["n"], e["snapbytes"], e["stage"], ("call failed with '%s';" % e["err"]) if e["err"] else "", e["lb"][:300], e["lm"][:300]), {"event": e})
+    ctx.log("long logs: %d stages of %d histories: %d failed checks" % (nl, len(sizes), len(vl)))
+    ctx.cov["long_log_histories"] = len(sizes)
+    total += len(sizes)
+    mut = json.loads(json.dumps(levs))
+    mut[3]["lb"] = mut[3]["lb"].replace("first=", "first=1", 1)
+    p3 = ctx.path("self3.ndjson")
+    open(p3, "w").writelines(json.dumps(e) + "\n" for e in mut)
+    v3, _ = vlib.validate_trace(ctx, "WalStoreTrace", "WalStoreTrace_b.cfg", p3, is_reset)
+    ctx.cov["binding_selftest"]["corrupted_long_log_answer_rejected"] = any(v[1] == "LongLog" for v in v3)
+    if not ctx.cov["binding_selftest"]["corrupted_long_log_answer_rejected"]:
+        raise vlib.NoVerdict("binding self-test failed: a corrupted long-log answer is accepted")
     # binding self-test: corrupt one answer of the Badger store / drop a call
     good = open(rtrace).read().splitlines(True)[:300]
     while good and not good[-1].startswith('{"ev":"end"'):
